@@ -334,6 +334,13 @@ def classify_binding(name, r, scope, depth, seen):
         clo, i = r[1], r[2]
         # the higher-order function this closure is passed to decides what the parameter is
         par = scope.pm.get(id(clo))
+        if par is not None and par.get("k") == "mcall" and par["m"] in ("map", "for_each", "try_for_each", "filter", "filter_map", "flat_map", "any", "all", "find", "position", "inspect") and len(clo["params"]) == 1:
+            # an iterator adaptor: the parameter is an element of whatever the receiver chain iterates over - a `for` loop in disguise
+            path = [pth for nm, pth in sir.pat_bindings(clo["params"][0]) if nm == name]
+            srcs = iter_sources(par["recv"], scope)
+            if srcs is not None and path:
+                cs = [classify_path_binding(src, path[0], scope, depth, seen, loop=True) for src in srcs]
+                return join(cs) if cs else Cls("safe", "iterates over nothing")
         if par is not None and par.get("k") in ("call", "mcall"):
             j = [x for x, a in enumerate(par["args"]) if a is clo]
             callee = sir.call_name(par)
@@ -388,6 +395,40 @@ def mutations_of(name, decl, scope):
                     out.append(a)
     # drop trivial container initialisers
     return [a for a in out if sir.expr_str(a) not in ("None",) and not (a.get("k") == "call" and sir.call_name(a) == "Some" and a["args"] and a["args"][0].get("k") == "mac")]
+
+
+def iter_sources(e, scope, depth=0):
+    """the collections an iterator expression draws its elements from (through `iter`/`chain`/`rev`/.., locals and if/else),
+    or None when it is not readable"""
+    e = sir.strip_ref(e)
+    if depth > 6:
+        return None
+    k = e.get("k")
+    if k == "mcall":
+        if e["m"] in ("iter", "into_iter", "iter_mut", "rev", "skip", "take", "peekable", "cloned", "copied", "by_ref", "as_slice", "as_ref") :
+            return iter_sources(e["recv"], scope, depth + 1)
+        if e["m"] == "chain" and len(e["args"]) == 1:
+            a, b = iter_sources(e["recv"], scope, depth + 1), iter_sources(e["args"][0], scope, depth + 1)
+            return None if a is None or b is None else a + b
+        return [e]
+    if k == "array" and not e["elems"]:
+        return []
+    if k == "if" and e.get("else") is not None:
+        outs = []
+        for br in (e["then"], e["else"]):
+            t = br
+            while t.get("k") == "block" and len(t["stmts"]) == 1 and t["stmts"][0].get("k") == "expr" and not t["stmts"][0].get("semi"):
+                t = t["stmts"][0]["e"]
+            r_ = iter_sources(t, scope, depth + 1)
+            if r_ is None:
+                return None
+            outs += r_
+        return outs
+    if k == "path" and len(e["segs"]) == 1 and not e["segs"][0].isupper():
+        r = scope.resolve(e["segs"][0], e)
+        if r and r[0] == "let" and r[1] is not None and not r[2]:
+            return iter_sources(r[1], scope, depth + 1)
+    return [e]
 
 
 def classify_path_binding(src, path, scope, depth, seen, loop=False):
